@@ -38,6 +38,8 @@ func decorate(t string) []string {
 	for _, ws := range []string{" ", "\t", "\n", "\r\n", "\v", "\f", "\u00a0", "\u2028", "\u3000", "\u200b", "\ufeff", "\x00", "\u0085", "\u2003", "\x1f", "\x7f"} {
 		add(ws+t, t+ws, ws+t+ws)
 	}
+	// a date, a number or an identifier followed by what another layer's notion of the same value carries
+	add(t+"T00:00:00Z", t+"T00:00:00", t+" 00:00:00", t+"T00:00:00+00:00", t+"T00:00:00.000Z", t+"Z", t+"T12:34:56Z", t+" UTC", t+"+00:00", t+".0", t+"e0", t+"/", t+".000", t+"-", t+"_", "v"+t, "V"+t, t+"L", t+"n", t+"d", t+"f")
 	add(t+t, t+","+t, t+" "+t, t+"\n"+t, t+";", t+",", "="+t, t+"=", "+"+t, "-"+t, "#"+t, t+"#", "//"+t, t+"//", "0x"+t, t+"\\", "\\"+t, t+"\\n", t+"%00", t+"\x00garbage")
 	// other digit scripts and letter widths
 	full := strings.Map(func(r rune) rune {
